@@ -13,10 +13,13 @@ def res_value(t, d):
     return struct.pack("<HBBI", 8, 0, t, d & 0xFFFFFFFF)
 
 
-def config_bytes(lang="", region="", density=0, sdk=0):
+def config_bytes(lang="", region="", density=0, sdk=0, mcc=0, orientation=0, keyboard=0, width=0, layout=0, ui_mode=0,
+                 smallest=0, width_dp=0, script=b"", variant=b"", layout2=0, color_mode=0):
+    """ResTable_config, 64 bytes (size field included)"""
     loc = L.word([ord(c) for c in lang], [ord(c) for c in region]) if lang or region else 0
-    body = struct.pack("<IIIIIIII", 0, loc, density << 16, 0, 0, sdk, 0, 0)   # imsi, locale, screenType, input, screenSize, version, screenConfig, screenSizeDp
-    body += b"\0" * 4 + b"\0" * 8 + struct.pack("<I", 0) + b"\0" * 8              # localeScript, localeVariant, screenConfig2 + padding
+    body = struct.pack("<IIIIIIII", mcc, loc, orientation | (density << 16), keyboard, width, sdk,
+                       layout | (ui_mode << 8) | (smallest << 16), width_dp)
+    body += (script + b"\0" * 4)[:4] + (variant + b"\0" * 8)[:8] + struct.pack("<I", layout2 | (color_mode << 8)) + b"\0" * 8
     return struct.pack("<I", 4 + len(body)) + body
 
 
